@@ -382,6 +382,12 @@ func init() {
 			// the model
 			if e.Drv != nil {
 				req := map[string]interface{}{"m": "timed", "kind": kind, "poll": c15PollMs, "now": 0}
+				if kind == "helper" && !strings.Contains(c.Op, "send") {
+					// the WebSocket Receive interrupts its helper through the connection's read deadline, which the
+					// library applies to the socket itself; only Send depends on the fact read from the source
+					// (Generated.wsForcesUnderlyingDeadline, the driver's default for "interrupts")
+					req["interrupts"] = true
+				}
 				switch c.Ctx {
 				case "deadline":
 					req["deadline"] = c.AtMs
